@@ -10,7 +10,8 @@
    contract is needed for C11), the index sets are arbitrary. *)
 From Coq Require Import List Arith Bool ZArith QArith.
 From LV Require Import Common.Cases Align.DP Msa.Profile Msa.Merge Msa.Refine Msa.MsaSpec Msa.MsaExec
-  Msa.ProfileProofs Msa.MergeProofs Msa.UpdateProofs Msa.RefineProofs Msa.MsaExecProofs Msa.Examples.
+  Msa.ProfileProofs Msa.MergeProofs Msa.UpdateProofs Msa.RefineProofs Msa.MsaExecProofs Msa.Examples
+  Msa.Score Msa.ScoreProofs Msa.ScoreExec.
 Import ListNotations.
 Local Open Scope nat_scope.
 
@@ -105,6 +106,50 @@ Print Assumptions C11_history_monotone.
 Theorem C11_recorded_scores_instance : forall x : option Q, oq_ltb x x = false.
 Proof. exact oq_ltb_irrefl. Qed.
 Print Assumptions C11_recorded_scores_instance.
+
+(* the score itself (Msa/Score.v, compared with the implementation's score_profile /
+   sum_of_pairs values on a direct stream): calign.score_profile is the documented column score -
+   the sum of the pair scores over the pairs of non-gap cells, divided by the number of such pairs
+   plus gap_weight times the number of pairs with a gap (None = the ZeroDivisionError) *)
+Theorem C11_score_profile_definition :
+  forall (A : Type) (scorer : A -> A -> Q) (gw : Q) (colA colB : line A),
+    let ps := list_prod colA colB in
+    match cscore_profile scorer gw colA colB with
+    | Some q => (q == qsum_r (map (pair_score A scorer) ps)
+                      / (count A (bothb A) ps + gw * count A (fun xy => negb (bothb A xy)) ps))%Q
+                /\ ~ (count A (bothb A) ps + gw * count A (fun xy => negb (bothb A xy)) ps == 0)%Q
+    | None => (count A (bothb A) ps + gw * count A (fun xy => negb (bothb A xy)) ps == 0)%Q
+    end.
+Proof. exact cscore_profile_def. Qed.
+Print Assumptions C11_score_profile_definition.
+
+(* talign.score_profile: a pair with exactly one gap scores gop and counts 1, a pair of two gaps
+   counts gap_weight *)
+Theorem C11_tscore_profile_definition :
+  forall (A : Type) (scorer : A -> A -> Q) (gop gw : Q) (colA colB : line A),
+    let ps := list_prod colA colB in
+    match tscore_profile scorer gop gw colA colB with
+    | Some q => (q == (qsum_r (map (pair_score A scorer) ps) + gop * count A (oneb A) ps)
+                      / (count A (bothb A) ps + count A (oneb A) ps + gw * count A (noneb A) ps))%Q
+                /\ ~ (count A (bothb A) ps + count A (oneb A) ps + gw * count A (noneb A) ps == 0)%Q
+    | None => (count A (bothb A) ps + count A (oneb A) ps + gw * count A (noneb A) ps == 0)%Q
+    end.
+Proof. exact tscore_profile_def. Qed.
+Print Assumptions C11_tscore_profile_definition.
+
+(* ... and with THAT score (the mean of the column scores, for the gap weight of the call and
+   whatever scorer is current) every end-of-pass refinement call is monotone *)
+Theorem C11_sum_of_pairs_monotone :
+  forall (scorer : num -> num -> Q) (sn : bool) (gop gw : Q) (cf : config) (sonars : bool)
+         (c : call (option Q)) (st st' : state),
+    final_score (option Q) c = Some (sum_of_pairs scorer sn gop gw) ->
+    run_call (option Q) oq_ltb cf sonars c st = Some st' ->
+    oq_ltb (sum_of_pairs scorer sn gop gw (st_int st')) (sum_of_pairs scorer sn gop gw (st_int st)) = false.
+Proof.
+  exact (fun scorer sn gop gw cf sonars c st st' =>
+           call_final_monotone (option Q) oq_ltb cf sonars oq_ltb_irrefl c (sum_of_pairs scorer sn gop gw) st st').
+Qed.
+Print Assumptions C11_sum_of_pairs_monotone.
 
 (* ------------------------------------------------------------------ *)
 (* non-vacuity: a call whose candidate is worse (rolled back), one whose candidate is better
